@@ -300,18 +300,6 @@ func (nz *normalizer) usesHeaderDecl(info *types.Info, s ast.Stmt, site *inlineS
 	return found
 }
 
-// closureKeepEdits: `; _ = f` behind every inlinable closure literal between lo and hi (the closure's
-// variable stays declared after its calls were inlined).
-func (nz *normalizer) closureKeepEdits(lo, hi token.Pos) []textEdit {
-	var out []textEdit
-	for obj, lit := range nz.closure {
-		if lo <= lit.Pos() && lit.End() <= hi {
-			out = append(out, textEdit{nz.off(lit.End()), nz.off(lit.End()), "; _ = " + obj.Name(), 1 << 19})
-		}
-	}
-	return out
-}
-
 // predicateBody renders the body of a predicate literal as the body of the scan loop.
 // elem is the expression of the current element, hit what the result receives on the first match.
 func (nz *normalizer) predicateBody(pk *packages.Package, file *ast.File, lit *ast.FuncLit, elem, res, hit, label string) (text string, usedLabel bool, ok bool, why string) {
@@ -356,7 +344,7 @@ func (nz *normalizer) predicateBody(pk *packages.Package, file *ast.File, lit *a
 		fmt.Fprintf(&head, "var %s bool; _ = %s; ", resName, resName)
 	}
 	edits := nz.stmtEdits(pk, file, lit.Body)
-	edits = append(edits, nz.closureKeepEdits(lit.Body.Pos(), lit.Body.End())...)
+	// (the literals of closures declared inside the predicate are kept "used" or removed by stmtEdits: closureEdits)
 	// the returns of the literal itself, with the loops and switches of the literal they sit in
 	type retSite struct {
 		ret       *ast.ReturnStmt
@@ -821,7 +809,7 @@ func NormalizeDir(dir, out string, pinAll bool) ([]string, error) {
 			}
 		}
 	}
-	overlay, lg := BuildOverlay(pkgs, pinned)
+	overlay, lg := buildOverlay(pkgs, pinned, os.Getenv("NEAT_KEEP_CLOSURES") != "")
 	err = filepath.Walk(dir, func(path string, fi os.FileInfo, err error) error {
 		if err != nil {
 			return err
